@@ -142,7 +142,10 @@ def binop(I, op, a, b, node, inplace=False):
                     return Fraction(repr(v))
                 except (OverflowError, ZeroDivisionError, ValueError):
                     raise Unsupported("pow")
-            raise Unsupported(f"symbolic exponent at line {_ln(node)}")
+            # symbolic exponent: uninterpreted pow (only congruence is used, A-REAL)
+            f = z3.Function("pow_real", z3.RealSort(), z3.RealSort(), z3.RealSort())
+            I.ctx.result.assumptions.add("A-REAL: x ** y with a symbolic exponent is an uninterpreted function pow_real(x, y)")
+            return f(sym.zreal(a), sym.zreal(b))
     raise Unsupported(
         f"binary {type(op).__name__} on {type(a).__name__},{type(b).__name__} at line {_ln(node)}"
     )
